@@ -161,3 +161,32 @@ void ob_c20_refuse_rank(A& a, const std::array<size_t,R2>& req_)
 template void ob_c20_refuse_rank<fs_fb_row<float,24,2>,2,3,0>(fs_fb_row<float,24,2>&, const std::array<size_t,3>&);
 template void ob_c20_refuse_rank<fs_hb_row<float,24,2>,2,3,2>(fs_hb_row<float,24,2>&, const std::array<size_t,3>&);
 template void ob_c20_refuse_rank<fs_hb_row<float,24,3>,3,1,2>(fs_hb_row<float,24,3>&, const std::array<size_t,1>&);
+
+// ---------------- ndarray_t whose shape is a bounded run-time-length container (static_vector): the run-time-loop branches of
+// ndarray_t::resize and of the offset functor's copy-assignment (the same branches dynamic shapes take)
+using sv4_t = nmtools::utl::static_vector<size_t,4>;
+template <class T, size_t N> using hs_fb_row = na::ndarray_t<std::array<T,N>, sv4_t>;
+template <class T, size_t N> using hs_fb_col = na::column_major_ndarray_t<std::array<T,N>, sv4_t>;
+template <class A, bool ColMajor, size_t R, long KIND>
+void ob_c20_resize_bounded_dim(A& a, const std::array<size_t,R>& req_, const std::array<size_t,R>& idx_)
+{
+    const auto req = req_; const auto idx = idx_;
+    ASSUME(a.shape_.size() <= 4); ASSUME(a.strides_.size() <= 4); ASSUME(a.offset_.strides_.size() <= 4); ASSUME(a.offset_.shape_.size() <= 4);
+    if (a.resize(req)) {
+        OBLIGE("C20.bounded_dim.resize.dim", (size_t)a.shape_.size() == R, KIND, R);
+        OBLIGE("C20.bounded_dim.resize.strides_dim", (size_t)a.strides_.size() == R, KIND, R);
+        OBLIGE("C20.bounded_dim.resize.functor_strides_dim|C01.O5.bounded_dim.functor_strides_dim", (size_t)a.offset_.strides_.size() == R, KIND, R);
+        for_<R>([&](auto I){
+            OBLIGE("C20.bounded_dim.resize.shape", (size_t)rd<I.value>(a.shape_) == rd<I.value>(req), KIND, R, I.value);
+            OBLIGE("C20.bounded_dim.resize.strides", (size_t)rd<I.value>(a.strides_) == (layout_stride<false,R,I.value>(req)), KIND, R, I.value);
+            // (functor strides of a bounded-dim array: copied by a run-time loop inside the functor's operator= - dischargeable for R == 1 only;
+            //  the member-wise agreement of that copy is decided by rule R-MEMCOPY)
+            if constexpr (R == 1) OBLIGE("C20.bounded_dim.resize.functor_strides|C01.O5.bounded_dim.functor_strides", (size_t)rd<I.value>(a.offset_.strides_) == (layout_stride<ColMajor,R,I.value>(req)), KIND, R, I.value);
+        });
+        size_t n = 1; for_<R>([&](auto I){ n *= rd<I.value>(req); });
+        OBLIGE("C20.bounded_dim.resize.numel", n == (size_t)nm::len(a.data_), KIND, R);
+    }
+}
+#define INSTB(R) template void ob_c20_resize_bounded_dim<hs_fb_row<float,24>,false,R,10>(hs_fb_row<float,24>&, const std::array<size_t,R>&, const std::array<size_t,R>&);
+#define INSTBC(R) template void ob_c20_resize_bounded_dim<hs_fb_col<float,24>,true,R,11>(hs_fb_col<float,24>&, const std::array<size_t,R>&, const std::array<size_t,R>&);
+INSTB(1) INSTB(2) INSTB(3) INSTBC(1) INSTBC(2)
